@@ -89,6 +89,7 @@ def work(args):
         "nontrivial": set(),
         "digests": set(),
         "switch": set(),
+        "states": set(),
         "faults": {},
         "sums": {},
         "samples": [],
@@ -129,6 +130,8 @@ def work(args):
                     agg["faults"][fk] = agg["faults"].get(fk, 0) + fv
             elif k == "switch_sig":
                 agg["switch"].add(v)
+            elif k == "state_sigs":
+                agg["states"].update(v)
             elif k == "probes":
                 for fk, fv in v.items():
                     agg["probes"][fk] = agg["probes"].get(fk, 0) + fv
@@ -147,6 +150,7 @@ def merge(total, agg):
     total["nontrivial"].update(agg["nontrivial"])
     total["digests"].update(agg["digests"])
     total["switch"].update(agg["switch"])
+    total["states"].update(agg["states"])
     total["errors"].extend(agg["errors"])
     for k, v in agg["faults"].items():
         total["faults"][k] = total["faults"].get(k, 0) + v
@@ -165,6 +169,7 @@ def run_batch(pid, seed, tier, runs, chunk, budget_s):
         "nontrivial": set(),
         "digests": set(),
         "switch": set(),
+        "states": set(),
         "faults": {},
         "sums": {},
         "samples": [],
@@ -272,6 +277,7 @@ def write_evidence(pid, tier, seed, mod, total, n_viol, kf_hits, extra_assumptio
         "seeds_per_hour": int(total["evaluations"] * 3600 / max(wall, 1e-6)),
         "distinct_event_logs": len(total["digests"]),
         "distinct_interleavings_actor_switch_sequences": len(total["switch"]),
+        "distinct_states_marker_x_shadow_stack_shape": len(total["states"]),
         "fault_kinds_fired": total["faults"],
         "rare_condition_probes": total["probes"],
         "totals": total["sums"],
